@@ -317,3 +317,23 @@ CHECKS["C14"] = {
                   "only through those finalisations.",
     "level_note": "Fault enumeration over six RNG fault models x the listed single-input differences; held on the executed pairs. Trusted: the merlin probe.",
 }
+
+CHECKS["C15"] = {
+    "title": "Proof encoding is a canonical bijection with an exact acceptance set",
+    "level": "exploration",
+    "technique": "runtime monitoring: decoder run on an exhaustive (tag x length x filler) sweep, scalar-canonicity boundary values in every scalar slot, random and mutation-fuzzed strings, and on every kind of prover output; oracle = independent acceptance predicate (own big-integer comparison with the group order) + re-encode equality + bincode/serde equivalence",
+    "design_ref": "DESIGN.md section 4 C15",
+    "legs": [{"name": "fm", "shards": 16}, {"name": "ris", "shards": 16}],
+    "rule": "sweep: every (first byte 0..=255, length 0..=1314) with three fillers (zeros, canonical pattern, 0xFF) - counted as distinct (tag, length) classes; boundary: every scalar slot x {l-1, l, l+1, l+2^64, 2^252+l, "
+            "2^255-1, 2^256-1, high bit, 2^252, 0} for degrees 1..6 and 1/2/7 rounds; fuzz: random valid encodings under 8 mutation operators; prover outputs: one per (bits, aggregation) pair of the lattice with rotating degree; "
+            "non-trivial = from_bytes ran and its result was compared with the predicate",
+    "exhaustive": {"quick": False, "thorough": False},
+    "require": {"quick": {"decodes": 2000000, "accepted_strings": 20000, "reencodes_compared": 20000, "scalar_boundary_cases": 1900, "serde_decodes": 100000, "prover_outputs": 120, "serde_roundtrips": 110, "fuzzed_strings": 200000},
+                "thorough": {"decodes": 4000000, "accepted_strings": 100000, "reencodes_compared": 100000, "scalar_boundary_cases": 1900, "serde_decodes": 500000, "prover_outputs": 120, "serde_roundtrips": 110, "fuzzed_strings": 2000000}},
+    "assumptions": COMMON_ASSUMPTIONS + ["the (tag, length) sweep is exhaustive up to 1314 bytes (40 elements beyond the largest honest proof) for three fill patterns, not for all contents",
+                                         "the serde form is exercised through bincode 1.x (the crate's own dev-dependency)"],
+    "level_text": "Runs the real decoder on more than two million byte strings: the complete (first byte x length) grid up to 1314 bytes under three fill patterns, every scalar slot at the canonicity "
+                  "boundary of the group order (independent little-endian comparison), random and mutated encodings; acceptance must equal the stated set exactly, every accepted string must re-encode to "
+                  "itself, and the serde/bincode form must accept and produce exactly the same strings. Every kind of proof the prover outputs over the lattice (up to 64x32) must round-trip with the stated length.",
+    "level_note": "Known finding (not a false alarm): prover outputs with zero folding rounds are refused by the decoder; listed in known_findings.json.",
+}
